@@ -404,6 +404,7 @@ theorem inv_packetSent (l : Loss) (h : AcctInv l) (sp : Nat) (size : Int) (ae in
 
 theorem inv_skipNumber (l : Loss) (h : AcctInv l) (sp : Nat) (now : Int) : AcctInv (l.skipNumber sp now) := by
   unfold Loss.skipNumber
+  simp only
   rw [← setSpace_eta]
   apply upd_inv l h sp _ _ _ (CCSame.rfl' _)
   · intro p hp
@@ -418,6 +419,9 @@ theorem inv_receiveAckRange (l : Loss) (h : AcctInv l) (sp : Nat) (a b : Int) :
   unfold Loss.receiveAckRange
   simp only
   generalize (if a < (l.space sp).start then (l.space sp).start else a) = st
+  by_cases h0 : ((l.space sp).skipped.any fun k => decide (a ≤ k ∧ k < b)) = true
+  · simp only [h0, if_true]; exact h
+  simp only [h0, Bool.false_eq_true, if_false]
   by_cases h1 : b > (l.space sp).nextNum
   · simp only [h1, if_true]; exact h
   · by_cases h2 : st ≥ b
@@ -674,45 +678,43 @@ structure SpaceInv (s : Space) (fs ks : List Int) : Prop where
   k_unsent : ∀ k ∈ ks, (∃ p ∈ s.pkts, p.num = k ∧ p.state = .unsent) ∨ k < s.start
   f_nodup : fs.Nodup
   unsent_k : ∀ p ∈ s.pkts, p.state = .unsent → p.num ∈ ks
+  sk : ∀ k, k ∈ s.skipped ↔ k ∈ ks
 
 theorem spaceInv_empty : SpaceInv {} [] [] := by
-  refine ⟨trivial, ?_, ?_, ?_, ?_, List.nodup_nil, ?_⟩ <;> intro n hn <;> simp at hn
+  refine ⟨trivial, ?_, ?_, ?_, ?_, List.nodup_nil, ?_, fun k => Iff.rfl⟩ <;> intro n hn <;> simp at hn
 
 theorem spaceInv_add (s : Space) (fs ks : List Int) (h : SpaceInv s fs ks) (p : Pkt)
     (hnum : p.num = s.nextNum) (hst : p.state = .sent ∨ p.state = .unsent) :
-    SpaceInv (s.add p) fs (if p.state = .unsent then s.nextNum :: ks else ks) := by
-  obtain ⟨hc, h1, h2, h3, h4, h5, h6⟩ := h
-  have hstart : (s.add p).start = s.start := by
-    simp only [Space.start, Space.add, List.length_append, List.length_singleton]; push_cast; omega
-  refine ⟨?_, ?_, ?_, ?_, ?_, h5, ?_⟩
-  rotate_left 5
-  · intro q hq hqu
-    simp only [Space.add, List.mem_append, List.mem_singleton] at hq
-    rcases hq with hq | rfl
-    · have := h6 q hq hqu
-      split
-      · exact List.mem_cons_of_mem _ this
-      · exact this
-    · simp only [hqu, if_true, hnum]; exact List.mem_cons_self
-  · rw [hstart]
+    SpaceInv { (s.add p) with skipped := if p.state = .unsent then s.nextNum :: s.skipped else s.skipped }
+      fs (if p.state = .unsent then s.nextNum :: ks else ks) := by
+  obtain ⟨hc, h1, h2, h3, h4, h5, h6, h7⟩ := h
+  have hlen : (s.pkts ++ [p]).length = s.pkts.length + 1 := by simp
+  refine { consec := ?_, f_lt := ?_, f_settled := ?_, k_lt := ?_, k_unsent := ?_, f_nodup := h5, unsent_k := ?_, sk := ?_ }
+  · show Consec (s.nextNum + 1 - ((s.pkts ++ [p]).length : Nat)) (s.pkts ++ [p])
+    have : s.nextNum + 1 - ((s.pkts ++ [p]).length : Nat) = s.start := by
+      simp only [Space.start, hlen]; push_cast; omega
+    rw [this]
     apply consec_append hc
-    simp only [Space.start] at *; omega
-  · intro n hn; have := h1 n hn; simp only [Space.add]; omega
+    simp only [Space.start]; omega
+  · intro n hn; have := h1 n hn; show n < s.nextNum + 1; omega
   · intro n hn q hq hqn
-    simp only [Space.add, List.mem_append, List.mem_singleton] at hq
+    have hq : q ∈ s.pkts ++ [p] := hq
+    simp only [List.mem_append, List.mem_singleton] at hq
     rcases hq with hq | rfl
     · exact h2 n hn q hq hqn
     · have := h1 n hn; omega
   · intro k hk
-    simp only [Space.add]
+    show k < s.nextNum + 1
     split at hk
     · rcases List.mem_cons.1 hk with rfl | hk
       · omega
       · have := h3 k hk; omega
     · have := h3 k hk; omega
   · intro k hk
-    rw [hstart]
-    simp only [Space.add]
+    show (∃ q ∈ s.pkts ++ [p], q.num = k ∧ q.state = .unsent) ∨ k < s.nextNum + 1 - ((s.pkts ++ [p]).length : Nat)
+    have : s.nextNum + 1 - ((s.pkts ++ [p]).length : Nat) = s.start := by
+      simp only [Space.start, hlen]; push_cast; omega
+    rw [this]
     split at hk
     · rename_i hu
       rcases List.mem_cons.1 hk with rfl | hk
@@ -723,6 +725,20 @@ theorem spaceInv_add (s : Space) (fs ks : List Int) (h : SpaceInv s fs ks) (p : 
     · rcases h4 k hk with ⟨q, hq, hq1, hq2⟩ | h
       · exact Or.inl ⟨q, by simp [hq], hq1, hq2⟩
       · exact Or.inr h
+  · intro q hq hqu
+    have hq : q ∈ s.pkts ++ [p] := hq
+    simp only [List.mem_append, List.mem_singleton] at hq
+    rcases hq with hq | rfl
+    · have := h6 q hq hqu
+      split
+      · exact List.mem_cons_of_mem _ this
+      · exact this
+    · simp only [hqu, if_true, hnum]; exact List.mem_cons_self
+  · intro k
+    show k ∈ (if p.state = .unsent then s.nextNum :: s.skipped else s.skipped) ↔ _
+    split
+    · simp only [List.mem_cons, h7 k]
+    · exact h7 k
 
 /-- A walk (ACK range / loss detection / discard) over the list of one space. -/
 theorem spaceInv_walk (s : Space) (fs ks : List Int) (h : SpaceInv s fs ks) (ps' : List Pkt) (m : Int)
@@ -730,7 +746,7 @@ theorem spaceInv_walk (s : Space) (fs ks : List Int) (h : SpaceInv s fs ks) (ps'
     SpaceInv { s with pkts := ps', maxAcked := m } (changedNums s.pkts ps' ++ fs) ks ∧
     (∀ n ∈ changedNums s.pkts ps', n ∉ fs ∧ n ∉ ks ∧ n < s.nextNum) ∧
     (changedNums s.pkts ps').Nodup := by
-  obtain ⟨hc, h1, h2, h3, h4, h5, h6⟩ := h
+  obtain ⟨hc, h1, h2, h3, h4, h5, h6, h7⟩ := h
   obtain ⟨w1, w2, w3, w4, w5, w6⟩ := walk_facts hw hc
   have hstart : ({ s with pkts := ps', maxAcked := m } : Space).start = s.start := by
     simp only [Space.start, w2]
@@ -749,7 +765,7 @@ theorem spaceInv_walk (s : Space) (fs ks : List Int) (h : SpaceInv s fs ks) (ps'
       · omega
     · have := (consec_mem hc hp).2
       simp only [Space.start] at this; omega
-  refine ⟨⟨by rw [hstart]; exact w1, ?_, ?_, h3, ?_, ?_, ?_⟩, hfresh, w6⟩
+  refine ⟨⟨by rw [hstart]; exact w1, ?_, ?_, h3, ?_, ?_, ?_, h7⟩, hfresh, w6⟩
   rotate_left 4
   · intro p' hp' hpu
     by_cases hch : p'.num ∈ changedNums s.pkts ps'
@@ -776,7 +792,7 @@ theorem spaceInv_walk (s : Space) (fs ks : List Int) (h : SpaceInv s fs ks) (ps'
     exact (hfresh a ha).1 hb
 
 theorem spaceInv_clean (s : Space) (fs ks : List Int) (h : SpaceInv s fs ks) : SpaceInv s.clean fs ks := by
-  obtain ⟨hc, h1, h2, h3, h4, h5, h6⟩ := h
+  obtain ⟨hc, h1, h2, h3, h4, h5, h6, h7⟩ := h
   obtain ⟨c1, c2, c3⟩ := consec_clean hc
   have hstart : s.clean.start = s.start + (s.pkts.length - (cleanList s.pkts).length : Nat) := by
     simp only [Space.start, Space.clean]; push_cast; omega
@@ -790,7 +806,7 @@ theorem spaceInv_clean (s : Space) (fs ks : List Int) (h : SpaceInv s fs ks) : S
         · exact id
         · intro h; exact List.mem_cons_of_mem _ (ih h)
     exact this _ hq
-  refine ⟨by rw [hstart]; exact c1, h1, ?_, h3, ?_, h5, fun p hp hpu => h6 p (hsub p hp) hpu⟩
+  refine ⟨by rw [hstart]; exact c1, h1, ?_, h3, ?_, h5, fun p hp hpu => h6 p (hsub p hp) hpu, h7⟩
   · intro n hn p hp hpn
     exact h2 n hn p (hsub p hp) hpn
   · intro k hk
@@ -864,6 +880,9 @@ theorem g_receiveAckRange (l : Loss) (g : Ghost) (h : FInv l g) (sp : Nat) (hsp 
   unfold Loss.receiveAckRange
   simp only
   generalize (if a < (l.space sp).start then (l.space sp).start else a) = st
+  by_cases h0 : ((l.space sp).skipped.any fun k => decide (a ≤ k ∧ k < b)) = true
+  · simp only [h0, if_true]; exact ⟨hsame l rfl, by simp [Fresh, numsOf]⟩
+  simp only [h0, Bool.false_eq_true, if_false]
   by_cases h1 : b > (l.space sp).nextNum
   · simp only [h1, if_true]; exact ⟨hsame l rfl, by simp [Fresh, numsOf]⟩
   · by_cases h2 : st ≥ b
@@ -944,6 +963,8 @@ theorem g_packetSent (l : Loss) (g : Ghost) (h : FInv l g) (sp : Nat) (hsp : sp 
   have hs := spaceInv_add (l.space sp) (g.f sp) (g.k sp) (h sp hsp)
     { num := (l.space sp).nextNum, size := size, time := now, ackEliciting := ae, inFlight := inf, state := .sent } rfl (Or.inl rfl)
   simp only [show (PState.sent = PState.unsent) = False by simp, if_false] at hs
+  have hs : SpaceInv ((l.space sp).add
+      { num := (l.space sp).nextNum, size := size, time := now, ackEliciting := ae, inFlight := inf, state := .sent }) (g.f sp) (g.k sp) := hs
   have := finv_update_f l g h sp hsp _ (l.cc.packetSent
     { num := (l.space sp).nextNum, size := size, time := now, ackEliciting := ae, inFlight := inf, state := .sent }) _ hs
   rw [upd_self] at this
